@@ -143,6 +143,21 @@ def _ref_setup(lineage):
         return libops.build_lineage(lineage)
 
 
+def _decompose_spec(lib, molspec):
+    """molspec: a molecule, or [molecule, [groups the caller asked the
+    returned mapping for]] (asking a defaultdict for a key it does not have
+    leaves that key behind with a count of zero)."""
+    if isinstance(molspec, (list, tuple)):
+        mol, touched = molspec
+    else:
+        mol, touched = molspec, []
+    out, d = libops.op_decompose(lib, mol)
+    if d is not None:
+        for g in touched:
+            d[g]
+    return out, d
+
+
 def _ref_chain(lib, chain):
     kind = chain[0]
     if kind == 'digest':
@@ -151,13 +166,13 @@ def _ref_chain(lib, chain):
         out, _ = libops.op_decompose(lib, chain[1])
         return out
     if kind == 'estimate':
-        out, d = libops.op_decompose(lib, chain[1])
+        out, d = _decompose_spec(lib, chain[1])
         if d is None:
             return {'precondition-failed': out}
         out, _ = libops.op_estimate(lib, d)
         return out
     if kind == 'evaluate':
-        out, d = libops.op_decompose(lib, chain[1])
+        out, d = _decompose_spec(lib, chain[1])
         if d is None:
             return {'precondition-failed': out}
         out, est = libops.op_estimate(lib, d)
@@ -166,7 +181,7 @@ def _ref_chain(lib, chain):
         return libops.op_evaluate(est, chain[2])
     if kind == 'evaluate_plain':
         # estimate made from a plain dict copy of the descriptors
-        out, d = libops.op_decompose(lib, chain[1])
+        out, d = _decompose_spec(lib, chain[1])
         if d is None:
             return {'precondition-failed': out}
         out, est = libops.op_estimate(lib, dict(d))
@@ -178,7 +193,7 @@ def _ref_chain(lib, chain):
     if kind == 'evaluate2':
         # an estimate made first, then later merges into its library, then
         # the evaluation -- all of it first in a fresh process
-        out, d = libops.op_decompose(lib, chain[1])
+        out, d = _decompose_spec(lib, chain[1])
         if d is None:
             return {'precondition-failed': out}
         out, est = libops.op_estimate(lib, d)
@@ -468,19 +483,22 @@ class History(object):
         if src is None or src['lineage'].get('merges') or \
                 src['lineage'].get('constructed') or src.get('baseline'):
             return None
-        out, lib = libops.record(libops.construct_copy, src['lib'])
+        out, lib = libops.record(libops.construct_copy, src['lib'],
+                                 bool(op.get('empty')))
         if lib is None:
             self.viol('fresh-equivalence', 'construct-failed',
                       'construct|obs=%s|ref=ok' % out.get('exc'),
                       {'outcome': out}, idx)
             return ['construct-failed', out.get('exc')]
         lineage = {'base': list(src['lineage']['base']), 'merges': [],
-                   'constructed': True}
+                   'constructed': 'empty' if op.get('empty') else True}
         if src['lineage'].get('registered'):
             lineage['registered'] = True
         self.slots[op['slot']] = {'lib': lib, 'lineage': lineage,
                                   'last_mol': None, 'ndecomp': 0}
         self.probe('library_made_with_constructor')
+        if op.get('empty'):
+            self.probe('empty_collecting_library')
         return ['construct', lineage['base'][0]]
 
     def do_decompose(self, op, idx):
@@ -517,15 +535,31 @@ class History(object):
         if d['slot'] != op['slot']:
             self.probe('estimate_from_decomposition_of_other_slot')
         plain = bool(op.get('plain'))
+        if op.get('touch') is not None:
+            # the caller looks a group up in the mapping it got from
+            # GetDescriptors (a defaultdict: a group the structure does not
+            # have is left behind with a count of zero)
+            names = sorted(str(g) for g in s['lib'])
+            if names:
+                g = names[op['touch'] % len(names)]
+                if g not in d['d']:
+                    self.probe('descriptor_with_zero_count')
+                d['d'][g]
+                d.setdefault('touched', []).append(g)
+                # the caller's own doing, not an effect of a library call
+                d['canon'] = libops.descriptors_canon(d['d'])
+        molspec = [d['mol'], list(d['touched'])] if d.get('touched') \
+            else d['mol']
         out, est = libops.op_estimate(s['lib'], dict(d['d']) if plain
                                       else d['d'])
         lin = _lin_copy(s['lineage'])
-        ref = reference(lin, ['estimate', d['mol']])
+        ref = reference(lin, ['estimate', molspec])
         self.compare('estimate', out, ref, idx,
                      {'lineage': lin, 'mol': d['mol'],
                       'slot_last_decomposed': s['last_mol']})
         if est is not None:
             self.ests[op['out']] = {'e': est, 'lineage': lin, 'mol': d['mol'],
+                                    'molspec': molspec,
                                     'slot': op['slot'], 'made_at': idx,
                                     'librec': s, 'plain': plain,
                                     # what the library had decomposed last
@@ -559,11 +593,12 @@ class History(object):
             # merges went into the estimate's library after it was made:
             # the reference does exactly the same, first, in a fresh process
             self.probe('estimate_evaluated_after_later_merge')
-            ref = reference(e['lineage'], ['evaluate2', e['mol'], v, later])
+            ref = reference(e['lineage'], ['evaluate2', e['molspec'], v,
+                                           later])
         elif e.get('plain'):
-            ref = reference(e['lineage'], ['evaluate_plain', e['mol'], v])
+            ref = reference(e['lineage'], ['evaluate_plain', e['molspec'], v])
         else:
-            ref = reference(e['lineage'], ['evaluate', e['mol'], v])
+            ref = reference(e['lineage'], ['evaluate', e['molspec'], v])
         tag = '[S_el]' if v.get('S_el') else ''
         if e.get('plain') and v.get('S_el'):
             # stratum of the known finding: a plain mapping cannot carry its
@@ -653,7 +688,7 @@ class History(object):
                   'merges': a['lineage']['merges']
                   + [[_lin_copy(b['lineage']), op['overwrite']]]}
         if a['lineage'].get('constructed'):
-            newlin['constructed'] = True
+            newlin['constructed'] = a['lineage']['constructed']
         if a['lineage'].get('registered'):
             newlin['registered'] = True
         a['lineage'] = newlin
@@ -692,7 +727,7 @@ def _lin_copy(lin):
     out = {'base': list(lin['base']),
            'merges': [[_lin_copy(o), ov] for o, ov in lin.get('merges', [])]}
     if lin.get('constructed'):
-        out['constructed'] = True
+        out['constructed'] = lin['constructed']
     if lin.get('registered'):
         out['registered'] = True
     return out
@@ -927,6 +962,8 @@ def gen_spec(run_seed, tier='quick'):
             ops.append({'op': 'estimate', 'client': cid, 'slot': tgt,
                         'from': d[0], 'out': name,
                         'plain': rng.random() < 0.15})
+            if rng.random() < 0.12:
+                ops[-1]['touch'] = rng.randrange(0, 400)
             ests.append(name)
             est_slot[name] = tgt
         elif k == 'evaluate':
@@ -962,8 +999,23 @@ def gen_spec(run_seed, tier='quick'):
             ops.append({'op': 'mapping_api', 'client': cid, 'slot': sid})
         elif k == 'construct':
             new_sid = len(slots)
-            ops.append({'op': 'construct', 'client': cid, 'slot': new_sid,
-                        'from': sid})
+            op = {'op': 'construct', 'client': cid, 'slot': new_sid,
+                  'from': sid}
+            ops.append(op)
+            if rng.random() < 0.3:
+                # a library with the scheme only, used to collect others
+                op['empty'] = True
+                slots[new_sid] = lib
+                srcs = [sid] + [x for x in sorted(slots)
+                                if x not in (sid, new_sid)]
+                for other in srcs[:rng.randrange(1, 4)]:
+                    ops.append({'op': 'merge', 'client': cid, 'slot': new_sid,
+                                'other': other,
+                                'overwrite': rng.random() < 0.65})
+                if rng.random() < 0.5:
+                    ops.append({'op': 'mapping_api', 'client': cid,
+                                'slot': sid})
+                continue
             slots[new_sid] = lib
             if rng.random() < 0.5:
                 c['slot'] = new_sid
@@ -1094,6 +1146,15 @@ def fixed_histories():
                       {'m': 'get_SoR', 'T': 298.15}):
                 ops.append({'op': 'evaluate', 'client': 0, 'est': 'eb%d' % i,
                             'v': dict(v)})
+        # the caller asked the mapping of 'CCO' for groups it does not have
+        # (zero counts are left behind) before estimating from it
+        for j, touch in enumerate((0, 5, 11)):
+            ops.append({'op': 'estimate', 'client': 0, 'slot': 0,
+                        'from': 'b2', 'out': 'et%d' % j, 'touch': touch})
+            for v in ({'m': 'get_SoR', 'T': 298.15, 'S_el': True},
+                      {'m': 'get_HoRT', 'T': 298.15}):
+                ops.append({'op': 'evaluate', 'client': 0, 'est': 'et%d' % j,
+                            'v': dict(v)})
         out.append({'property': PROP, 'run_seed': 'fixed-boundary-%s' % libname,
                     'config': {'clients': 1, 'libs': [libname],
                                'fault_kinds': []}, 'ops': ops})
@@ -1126,6 +1187,35 @@ def fixed_histories():
                 'v': {'m': 'get_SoR', 'T': 500.0}}]
         out.append({'property': PROP, 'run_seed': 'fixed-ctor-%s' % src,
                     'config': {'clients': 2, 'libs': [src, uq],
+                               'fault_kinds': []}, 'ops': ops})
+    # a library with a scheme and no groups collects two others: neither
+    # source may change, whatever the second merge brings for groups of the
+    # first
+    for a, b, mol in (('FixA', 'FixB', 'CCO'), ('XieGA2022', 'BensonGA', 'CCC'),
+                      ('GuSolventGA2017Vac', 'GuSolventGA2017Aq',
+                       'C(=O)([Pt])O')):
+        ops = [{'op': 'load', 'client': 0, 'slot': 0, 'lib': a, 'how': 'name'},
+               {'op': 'load', 'client': 1, 'slot': 1, 'lib': b, 'how': 'name'},
+               {'op': 'construct', 'client': 0, 'slot': 2, 'from': 0,
+                'empty': True},
+               {'op': 'merge', 'client': 0, 'slot': 2, 'other': 0,
+                'overwrite': False},
+               {'op': 'mapping_api', 'client': 1, 'slot': 0},
+               {'op': 'merge', 'client': 0, 'slot': 2, 'other': 1,
+                'overwrite': True},
+               {'op': 'mapping_api', 'client': 1, 'slot': 0},
+               {'op': 'mapping_api', 'client': 1, 'slot': 1},
+               {'op': 'decompose', 'client': 1, 'slot': 0, 'mol': mol,
+                'out': 'd0'},
+               {'op': 'estimate', 'client': 1, 'slot': 0, 'from': 'd0',
+                'out': 'e0'},
+               {'op': 'evaluate', 'client': 1, 'est': 'e0',
+                'v': {'m': 'get_HoRT', 'T': 500.0}},
+               {'op': 'evaluate', 'client': 1, 'est': 'e0',
+                'v': {'m': 'get_SoR', 'T': 500.0}},
+               {'op': 'mapping_api', 'client': 0, 'slot': 2}]
+        out.append({'property': PROP, 'run_seed': 'fixed-collect-%s' % a,
+                    'config': {'clients': 2, 'libs': [a, b],
                                'fault_kinds': []}, 'ops': ops})
     return out
 
